@@ -118,8 +118,8 @@ func judge(c *caseIn, o *outcome) []verdict {
 		known[ps.Label] = true
 	}
 	for _, lc := range o.Calls {
-		if !known[lc.Label] {
-			add("any", "log-call-for-a-cid-not-in-the-pinset", "none", fmt.Sprintf("%+v", lc))
+		if !known[lc.Label] && lc.Op == "unpin" {
+			add("any", "unpin-of-a-cid-outside-the-pinset", "no LogUnpin", fmt.Sprintf("%+v", lc))
 		}
 	}
 	healthy := healthySet(c, false)
